@@ -332,6 +332,31 @@ pub fn run(run: &Run) {
             per_w.push(json!({"session": if kind == 0 { "server" } else { "client" }, "W": w, "states": stats.states, "transitions": stats.transitions, "fixpoint": stats.fixpoint, "max_depth": stats.max_depth}));
         }
     }
+    // ---- windows at the edges of the u32 range, reached by re-announcement from small ones (bounded depth) ----
+    let edge_depth = if thorough { 7 } else { 5 };
+    for kind in 0..2u8 {
+        let g = G { w0: 2, sizes: vec![0, 1, 2, 3, 5], reannounce: vec![1, 3, 1 << 24, 0x7FFF_FFFF, 0x8000_0000, 0xFFFF_FFFF],
+            acks: AtomicU64::new(0), exact_landings: AtomicU64::new(0), reannouncements: AtomicU64::new(0), others: AtomicU64::new(0) };
+        let o = g.step(&fresh(kind), &Act::Reannounce(2));
+        if let Some((sig, d)) = o.viol.first() {
+            run.violation(sig, d, json!({"session": if kind == 0 { "server" } else { "client" }, "window": 2, "ops": []}));
+            continue;
+        }
+        let init = o.succ.into_iter().next().unwrap();
+        let opts = BfsOptions { max_depth: Some(edge_depth), max_states: Some(20_000_000), ..Default::default() };
+        let (stats, viols) = bfs(&g, vec![init], &opts);
+        ts += stats.states;
+        tt += stats.transitions;
+        ti += stats.impl_steps;
+        for v in viols {
+            run.violation(&format!("{}/{}", v.signature, if kind == 0 { "server" } else { "client" }), &v.detail,
+                json!({"session": if kind == 0 { "server" } else { "client" }, "initial_window": 2, "graph": "edge windows", "ops": v.path}));
+        }
+        acks += g.acks.load(Ordering::Relaxed);
+        reann += g.reannouncements.load(Ordering::Relaxed);
+        per_w.push(json!({"session": if kind == 0 { "server" } else { "client" }, "graph": "windows 1, 3, 2^24, 2^31-1, 2^31, 2^32-1 by re-announcement from 2", "depth_bound": edge_depth,
+            "states": stats.states, "transitions": stats.transitions}));
+    }
     // ---- sampled large windows (labelled as sampled, as the property itself does) ----
     let big: Vec<u32> = if thorough { vec![100, 4096, 65_535, 1 << 24, 1 << 31, u32::MAX] } else { vec![100, 65_535, 1 << 24] };
     let mut sampled = 0u64;
